@@ -12,12 +12,18 @@ Two further dimensions of "every unhandled type ... in the current role and stat
   * the process-wide logging configuration the session runs under (case["log"]): untouched, or the
     level of the "paramiko" logger / of a per-transport log channel (Transport.set_log_channel) / the
     logging.disable() threshold set to one of DEBUG..CRITICAL. It is set before the session is built and
-    restored afterwards (vlib.core only installs a NullHandler, which this does not touch).
-Oracle (sentinel ordering, no sleeps): the puppet peer sends probe with outbound sequence number
-s, then a sentinel GLOBAL_REQUEST(want_reply). Everything the tested side sends up to the
-sentinel's REQUEST_FAILURE must be exactly one UNIMPLEMENTED(s) for a probe != 3 and nothing
-for probe == 3 (UNIMPLEMENTED itself is never answered). Afterwards the transport is active and
-a channel round trip still works.
+    restored afterwards (vlib.core only installs a NullHandler, which this does not touch);
+  * how many unhandled messages arrive back to back (field 4 of a probe, "chain": the next probe follows
+    without any recognised message in between). A run = a maximal chain of probes; the sentinel is sent
+    once, after the run. Run lengths: 1 (a recognised request after every probe), 2..6 (drawn per probe),
+    "storms" of 2..600 (quick) / ..3000 (thorough) probes whose types / payloads cycle through a drawn
+    pattern, and one sweep per role that sends EVERY unhandled type 0..255 in one uninterrupted run.
+    A re-exchange before a probe ends the run before it (its KEXINIT is a recognised message anyway).
+Oracle (sentinel ordering, no sleeps): the puppet peer sends the probes of a run with outbound sequence
+numbers s1..sn, then a sentinel GLOBAL_REQUEST(want_reply). Everything the tested side sends up to the
+sentinel's REQUEST_FAILURE must be exactly UNIMPLEMENTED(si), in order, for every probe != 3 of the run
+and nothing for a probe == 3 (UNIMPLEMENTED itself is never answered). Afterwards the transport is active
+and a channel round trip still works.
 """
 import logging
 import threading
@@ -33,9 +39,12 @@ RULE = (
     "role x unhandled message type (0..255 minus the tested side's live dispatch tables, "
     "and DISCONNECT/IGNORE/DEBUG which have dedicated semantics) x random payload x timing relative to a key re-exchange {none, right after a completed "
     "re-exchange started by either side, crossing the KEXINIT of a re-exchange the tested side started (probe handled while its own KEXINIT is outstanding)} "
-    "x process logging configuration {untouched, level of the paramiko logger / of a per-transport log channel / logging.disable threshold at DEBUG..CRITICAL}; "
-    "quick enumerates every (role,type) once (exhaustive over type x role, logging configuration drawn per session) plus hypothesis-drawn multi-probe sessions; "
-    "non-trivial = probe type without a debug name in paramiko.common.MSG_NAMES, or >= 3 probes in one session; distinct by (role, types, payloads, timing, logging)"
+    "x process logging configuration {untouched, level of the paramiko logger / of a per-transport log channel / logging.disable threshold at DEBUG..CRITICAL} "
+    "x length of the uninterrupted run of unhandled messages the probe is part of (no recognised message in between; the liveness sentinel follows the run): "
+    "1, 2..6 (chain flag drawn per probe), storms of 2..600 (thorough ..3000) probes cycling a drawn type/payload pattern, and per role one sweep of every unhandled type in a single run; "
+    "quick enumerates every (role,type) once with a sentinel after each probe (exhaustive over type x role, logging configuration drawn per session), once more as one back-to-back sweep per role, "
+    "plus hypothesis-drawn multi-probe sessions and storms; "
+    "non-trivial = probe type without a debug name in paramiko.common.MSG_NAMES, or >= 3 probes in one session; distinct by (role, types, payloads, timing, run structure, logging)"
 )
 
 SENTINEL = b"verif-sentinel@verif"
@@ -163,7 +172,7 @@ def _cross_rekey(tested, puppet, payload):
 
 
 def probe_session(ctx, role, probes, record=True, log=None):
-    """probes: list of (type, payload[, rekey timing]). Returns False if a violation was reported."""
+    """probes: list of (type, payload[, rekey timing[, chain]]). Returns False if a violation was reported."""
     logcfg = LogConfig(log)
     logcfg.apply()
     try:
@@ -172,34 +181,73 @@ def probe_session(ctx, role, probes, record=True, log=None):
         logcfg.restore()
 
 
+def _norm_probe(p):
+    """[t, payload] / [t, payload, rk] / [t, payload, rk, chain] -> (t, payload, rk, chain)."""
+    p = tuple(p)
+    return (p[0], p[1], p[2] if len(p) > 2 else None, bool(p[3]) if len(p) > 3 else False)
+
+
+def split_runs(probes):
+    """Indices of the probes grouped into runs: a run ends after a probe without the chain flag, after a probe that
+    crosses a KEXINIT (its sentinel is emitted together with it), and before a probe that is preceded by a re-exchange."""
+    runs, cur = [], []
+    for i, (t, p, rk, ch) in enumerate(probes):
+        if rk and cur:
+            runs.append(cur)
+            cur = []
+        cur.append(i)
+        if not ch or rk == "cross":
+            runs.append(cur)
+            cur = []
+    if cur:
+        runs.append(cur)
+    return runs
+
+
+def run_len_class(n):
+    for hi, name in ((1, "1"), (8, "2-8"), (40, "9-40"), (150, "41-150")):
+        if n <= hi:
+            return name
+    return "151+"
+
+
 def _probe_session(ctx, role, probes, record, logcfg):
     import paramiko
 
     from paramiko.common import MSG_NAMES
 
-    probes = [tuple(p) if len(p) == 3 else (p[0], p[1], None) for p in probes]
-    case = {"role": role, "probes": [[t, p, rk] for t, p, rk in probes]}
+    probes = [_norm_probe(p) for p in probes]
+    # (a case without any chain flag keeps the 3-field layout of the committed replays)
+    case = {"role": role, "probes": [[t, p, rk, True] if ch else [t, p, rk] for t, p, rk, ch in probes]}
     if logcfg.cfg:
         case["log"] = list(logcfg.cfg)
     link, tested, puppet = _session(role, logcfg)
     try:
         excl = excluded_types(tested)
-        probes = [(t, p, rk) for t, p, rk in probes if t not in excl]
+        probes = [pr for pr in probes if pr[0] not in excl]
         if not probes:
             return True
-        nontrivial = any(t not in MSG_NAMES for t, _, _ in probes) or len(probes) >= 3
+        runs = split_runs(probes)
+        nontrivial = any(t not in MSG_NAMES for t, _, _, _ in probes) or len(probes) >= 3
         if record:
-            cls = ["role:" + role] + ["unnamed" if t not in MSG_NAMES else "named" for t, _, _ in probes]
-            cls += ["rekey-before-probe:%s" % rk for _, _, rk in probes if rk and rk != "cross"]
-            cls += ["probe-crosses-own-kexinit" for _, _, rk in probes if rk == "cross"]
+            cls = ["role:" + role] + ["unnamed" if t not in MSG_NAMES else "named" for t, _, _, _ in probes]
+            cls += ["rekey-before-probe:%s" % rk for _, _, rk, _ in probes if rk and rk != "cross"]
+            cls += ["probe-crosses-own-kexinit" for _, _, rk, _ in probes if rk == "cross"]
+            cls += ["run-len:" + run_len_class(len(r)) for r in runs]
+            if max(len(r) for r in runs) > 1:
+                cls.append("session-with-back-to-back-run")
             if logcfg.cfg:
                 cls += ["log:%s" % logcfg.cfg[0], "log:%s=%s" % logcfg.cfg]
                 cls.append("log:WARNING-" + ("enabled" if _log_enabled(tested, logging.WARNING) else "disabled"))
             else:
                 cls.append("log:untouched")
             ctx.case(case, nontrivial, cls)
+            ctx.count("probes-sent", len(probes))
         seen = 0
-        for t, payload, rk in probes:
+        for run in runs:
+            t, payload, rk, _ = probes[run[0]]
+            b2b = "@back-to-back" if len(run) > 1 else ""
+            seqs = []
             if rk == "cross":
                 s, err, crossed = _cross_rekey(tested, puppet, bytes([t]) + payload)
                 if err:
@@ -207,16 +255,22 @@ def _probe_session(ctx, role, probes, record, logcfg):
                     return False
                 if record:
                     ctx.count("cross:probe-sent-inside-own-kexinit-window" if crossed else "cross:degraded-to-after-rekey")
+                seqs.append(s)
             else:
                 if rk:
-                    # a completed re-exchange right before the probe (strict kex: sequence numbers restart)
+                    # a completed re-exchange right before the run (strict kex: sequence numbers restart)
                     try:
                         (puppet if rk == "puppet" else tested).renegotiate_keys()
                     except Exception as e:
                         ctx.violation("session-continues", "%s:rekey-failed" % role, case, repr(e))
                         return False
-                s = puppet.send_raw_seq(bytes([t]) + payload)
-                puppet.send_raw_seq(peers.m_global_request(SENTINEL, True))
+                try:
+                    for i in run:
+                        seqs.append(puppet.send_raw_seq(bytes([probes[i][0]]) + probes[i][1]))
+                    puppet.send_raw_seq(peers.m_global_request(SENTINEL, True))
+                except (EOFError, OSError):
+                    # the tested side hung up in the middle of the run: reported below as a dead session
+                    seqs += [None] * (len(run) - len(seqs))
             # wait for the sentinel's reply (REQUEST_FAILURE) or for the session to die
             def got(lg, seen=seen):
                 if any(e[1] == 82 for e in lg[seen:]):
@@ -225,38 +279,52 @@ def _probe_session(ctx, role, probes, record, logcfg):
                     return "dead"
                 return None
 
-            ok = puppet.wait_log(got, timeout=10.0)
+            ok = puppet.wait_log(got, timeout=10.0 + 0.02 * len(run))
             if ok == "dead":
                 ok = None
             lg = list(puppet.log)
             new = lg[seen:]
+            types_ = [probes[i][0] for i in run]
             if not ok:
                 alive = tested.is_active()
                 exc = tested.get_exception()
                 bucket = "session-died:%s" % type(exc).__name__ if not alive else "no-sentinel-reply"
-                ctx.violation("session-continues", "%s:%s" % (role, bucket), case, "probe type %d: tested active=%s exception=%r replies=%r" % (t, alive, exc, [(e[0], e[1]) for e in new]))
+                n_ok = len([e for e in new if e[1] == 3])
+                ctx.violation("session-continues", "%s:%s%s" % (role, bucket, b2b), case, "run of %d probe(s) types %r: tested active=%s exception=%r; %d UNIMPLEMENTED replies seen, then %r" % (len(run), types_[:20], alive, exc, n_ok, [(e[0], e[1]) for e in new if e[1] != 3][:8]))
                 return False
             idx = next(i for i, e in enumerate(new) if e[1] == 82)
             # EXT_INFO (7) is the server's unsolicited extension message after NEWKEYS, not an answer
-            before = [e for e in new[:idx] if e[1] != 7]
+            before = [(e[1], e[2]) for e in new[:idx] if e[1] != 7]
             seen += idx + 1
-            if t == 3:
-                if before:
-                    ctx.violation("unimplemented-never-answered", role, case, "UNIMPLEMENTED probe answered with %r" % [(e[1], e[2][:8].hex()) for e in before])
-                    return False
+            expected = [(3, R.u32(s)) for i, s in zip(run, seqs) if probes[i][0] != 3]
+            if before == expected:
+                continue
+            show = [(ty, pl[:8].hex()) for ty, pl in before[:12]]
+            seq_of_unimpl = set(R.u32(s) for i, s in zip(run, seqs) if probes[i][0] == 3)
+            if not expected or any(ty == 3 and pl in seq_of_unimpl for ty, pl in before):
+                ctx.violation("unimplemented-never-answered", role, case, "run types %r: UNIMPLEMENTED probe answered; replies %r" % (types_[:20], show))
+                return False
+            j = next((k for k in range(min(len(before), len(expected))) if before[k] != expected[k]), min(len(before), len(expected)))
+            if j >= len(expected):
+                kind = "other-reply"  # every probe answered, and then something more
+            elif j >= len(before) or before[j] in expected[j + 1 :]:
+                kind = "missing"
+            elif before[j][0] == 3 and len(before) == len(expected):
+                kind = "wrong-seqno"
             else:
-                good = len(before) == 1 and before[0][1] == 3 and before[0][2] == R.u32(s)
-                if not good:
-                    kind = "missing" if not before else ("wrong-seqno" if len(before) == 1 and before[0][1] == 3 else "other-reply")
-                    # circumstances that narrow the root cause (plain bucket when none applies)
-                    if rk == "cross":
-                        kind += "@own-kexinit-outstanding"
-                    if not _log_enabled(tested, logging.WARNING):
-                        kind += "@warning-logging-disabled"
-                    elif _log_enabled(tested, logging.DEBUG):
-                        kind += "@debug-logging-enabled"
-                    ctx.violation("unimplemented-reply", "%s:%s" % (role, kind), case, "probe type %d seq %d: replies %r" % (t, s, [(e[1], e[2][:8].hex()) for e in before]))
-                    return False
+                kind = "other-reply"
+            # circumstances that narrow the root cause (plain bucket when none applies)
+            if rk == "cross":
+                kind += "@own-kexinit-outstanding"
+            if not _log_enabled(tested, logging.WARNING):
+                kind += "@warning-logging-disabled"
+            elif _log_enabled(tested, logging.DEBUG):
+                kind += "@debug-logging-enabled"
+            if j > 0:
+                kind += "@back-to-back"  # the first probes of the run were answered correctly
+            nonu = [i for i in run if probes[i][0] != 3]
+            ctx.violation("unimplemented-reply", "%s:%s" % (role, kind), case, "run of %d probe(s): first wrong reply at position %d of %d expected (probe type %s seq %s); replies from there %r" % (len(run), j, len(expected), probes[nonu[j]][0] if j < len(nonu) else None, seqs[run.index(nonu[j])] if j < len(nonu) else None, [(ty, pl[:8].hex()) for ty, pl in before[j : j + 6]]))
+            return False
         # the session still works: channel round trip driven from the tested side if client,
         # or from the puppet (raw CHANNEL_OPEN) if the tested side is the server
         if not tested.is_active():
@@ -317,7 +385,7 @@ def run(ctx):
             return
         pl, log = c
         role, ts_ = mine.pop()
-        probes = [(t, pl[i % len(pl)], None) for i, t in enumerate(ts_)]
+        probes = [(t, pl[i % len(pl)], None, False) for i, t in enumerate(ts_)]
         probe_session(ctx, role, probes, log=log)
         covered.update((role, t) for t in ts_)
 
@@ -328,10 +396,47 @@ def run(ctx):
         ctx.exhaustive = True
         ctx.note("exhaustive_over", "message type 0..255 x role (payloads sampled)")
 
-    # part 2: hypothesis-drawn sessions (random order, repeated types, type 3 mixed in)
-    case_st = st.tuples(st.sampled_from(["client", "server"]), st.lists(st.tuples(st.integers(0, 255), payloads, st.sampled_from([None, None, None, "puppet", "tested", "cross", "cross"])), min_size=1, max_size=6), logcfgs)
-    ctx.explore(case_st, lambda c: probe_session(ctx, c[0], c[1], log=c[2]), ctx.scale(80, 800), shrink=False, seed_offset=1)
+    # part 1b: per role, every type once more in ONE uninterrupted run (a single sentinel at the end)
+    sweeps = [r for i, r in enumerate(("client", "server")) if i % ctx.nworkers == ctx.worker]
+
+    def sweep_body(c):
+        if not sweeps:
+            return
+        pl, log = c
+        role = sweeps.pop()
+        if probe_session(ctx, role, [(t, pl[i % len(pl)], None, True) for i, t in enumerate(types)], log=log):
+            ctx.count("sweep:every-type-in-one-run")
+
+    if sweeps:
+        ctx.explore(st.tuples(st.lists(payloads, min_size=1, max_size=16), logcfgs), sweep_body, len(sweeps), shrink=False, seed_offset=2)
+
+    # part 2: hypothesis-drawn sessions (random order, repeated types, type 3 mixed in, runs of up to 6)
+    probe_st = st.tuples(st.integers(0, 255), payloads, st.sampled_from([None, None, None, "puppet", "tested", "cross", "cross"]), st.booleans())
+    case_st = st.tuples(st.sampled_from(["client", "server"]), st.lists(probe_st, min_size=1, max_size=6), logcfgs)
+    ctx.explore(case_st, lambda c: probe_session(ctx, c[0], c[1], log=c[2]), ctx.scale(70, 800), shrink=False, seed_offset=1)
+
+    # part 3: storms - long uninterrupted runs; types / payloads cycle through a drawn pattern (UNIMPLEMENTED and
+    # handled types may be part of it: the former is never answered, the latter are dropped from the probe list)
+    hi = 600 if ctx.quick else 3000
+    lengths = st.one_of(st.integers(2, 8), st.integers(9, 40), st.integers(41, 150), st.integers(151, hi))
+    small = st.binary(max_size=48)
+    storm_st = st.tuples(
+        st.sampled_from(["client", "server"]),
+        lengths,
+        st.lists(st.tuples(st.integers(0, 255), small), min_size=1, max_size=8),
+        st.sampled_from([None, None, "puppet", "tested"]),  # a completed re-exchange right before the storm
+        st.lists(st.tuples(st.integers(0, 255), small), max_size=2),  # single probes (own sentinel) before the storm
+        logcfgs,
+    )
+
+    def storm_body(c):
+        role, n, pat, rk, lead, log = c
+        probes = [(t, p, None, False) for t, p in lead]
+        probes += [(pat[i % len(pat)][0], pat[i % len(pat)][1], rk if i == 0 else None, i < n - 1) for i in range(n)]
+        probe_session(ctx, role, probes, log=log)
+
+    ctx.explore(storm_st, storm_body, ctx.scale(24, 300), shrink=False, seed_offset=3)
 
 
 def replay(ctx, case):
-    probe_session(ctx, case["role"], [tuple(p) for p in case["probes"]], log=case.get("log"))
+    probe_session(ctx, case["role"], [_norm_probe(p) for p in case["probes"]], log=case.get("log"))
